@@ -120,7 +120,7 @@ def build_native(job, wd, inc, exe, cxx='g++', cc='gcc', opt='-O1', san=None):
     objs = []
     for i, cf in enumerate([os.path.join(RT, 'native_rt.c')] + extra):
         o = os.path.join(wd, 'rt%d-%s.o' % (i, os.path.basename(exe)))
-        rc, out, _ = run([cc, opt, '-w'] + san + ['-I', RT, '-c', cf, '-o', o], timeout=600)
+        rc, out, _ = run([cc, opt, '-w'] + san + ['-D%s=%s' % kv for kv in sorted(getattr(job, 'c_defines', {}).items())] + ['-I', RT, '-c', cf, '-o', o], timeout=600)
         if rc: return 'rt build failed: ' + out[-1500:]
         objs.append(o)
     units = job.product if job.product else [('', {})]
@@ -174,7 +174,7 @@ def _run_variant(job, work, vname, inc, res, seed):
     cfiles = []; lltexts = []
     if job.product:
         for (pfx, pdefs) in job.product:
-            d = dict(job.defines); d.update(pdefs)
+            d = dict(job.defines); d.update(pdefs); d['VERIF_PREFIX'] = pfx
             c, text, st = _translate(job, wd, pfx.rstrip('_') or 'm', src, d, inc, prefix=pfx)
             cfiles.append(c); lltexts.append(text)
     else:
@@ -189,7 +189,7 @@ def _run_variant(job, work, vname, inc, res, seed):
         rt = os.path.join(RT, 'native_rt.c')
         err = build_native(job, wd, inc, nat)
         if err: raise Inconclusive(err)
-        rc, out, _ = run(['gcc', '-O1', '-w', '-fno-strict-aliasing', '-fwrapv', '-I', RT, '-o', tr] + cfiles + [rt] + extra, timeout=600)
+        rc, out, _ = run(['gcc', '-O1', '-w', '-fno-strict-aliasing', '-fwrapv', '-I', RT] + ['-D%s=%s' % kv for kv in sorted(getattr(job, 'c_defines', {}).items())] + ['-o', tr] + cfiles + [rt] + extra, timeout=600)
         if rc: raise Inconclusive('gcc build of translated C failed: ' + out[-2000:])
         a = run([nat, str(seed * 1000 + 1), str(job.seeds)], timeout=120)[1]
         b = run([tr, str(seed * 1000 + 1), str(job.seeds)], timeout=120)[1]
@@ -209,6 +209,7 @@ def _run_variant(job, work, vname, inc, res, seed):
     if job.ub: cmd += ['-DVERIF_UB', '--pointer-overflow-check', '--no-malloc-may-fail']
     else: cmd += ['--no-standard-checks']
     cmd += job.cbmc_extra or ['--sat-solver', 'cadical']
+    cmd += ['-D%s=%s' % kv for kv in sorted(getattr(job, 'c_defines', {}).items())]
     rc, out, dt = run(['/usr/bin/time', '-f', 'MAXRSS_KB=%M'] + cmd, timeout=job.timeout, mem_gb=job.mem_gb)
     res['solver_s'] += dt
     m = re.search(r'MAXRSS_KB=(\d+)', out)
@@ -265,11 +266,26 @@ def native_replay(job, work, inc, draws, tag, sanitize=False):
         outs.append((cxx + opt, rc, out))
     return outs, None
 
+MEM_BUDGET_GB = float(os.environ.get('VERIF_MEM_GB', '44'))
+_mem_cv = threading.Condition(); _mem_used = [0.0]
+
+def _run_weighted(job, work, seed):
+    w = min(float(getattr(job, 'weight_gb', 1.0)), MEM_BUDGET_GB)
+    with _mem_cv:
+        while _mem_used[0] + w > MEM_BUDGET_GB and _mem_used[0] > 0: _mem_cv.wait()
+        _mem_used[0] += w
+    try:
+        return run_job(job, work, seed)
+    finally:
+        with _mem_cv:
+            _mem_used[0] -= w; _mem_cv.notify_all()
+
 def run_jobs(jobs, work, seed=0, workers=None, progress=None):
     workers = workers or max(2, NCPU - 2)
     results = [None] * len(jobs)
+    order = sorted(range(len(jobs)), key=lambda i: -float(getattr(jobs[i], 'weight_gb', 1.0)))
     with ThreadPoolExecutor(max_workers=workers) as ex:
-        futs = {ex.submit(run_job, j, work, seed): i for i, j in enumerate(jobs)}
+        futs = {ex.submit(_run_weighted, jobs[i], work, seed): i for i in order}
         for f in as_completed(futs):
             i = futs[f]; results[i] = f.result()
             if progress: progress(jobs[i], results[i])
